@@ -1,5 +1,5 @@
 // ---- exact behaviour of the two scanners (used by C16; C17 needs only the substring clauses)
-pub open spec fn is_ws(c: char) -> bool { c == ' ' || c == '\t' || c == '\n' || c == '\x0C' || c == '\r' }
+pub open spec fn is_ws(c: char) -> bool { is_ascii_ws(c) }
 // number of leading ASCII-whitespace characters
 pub open spec fn skip_ws(s: Seq<char>) -> int
     decreases s.len()
